@@ -31,6 +31,19 @@ Scope (lenient readings, DESIGN.md 7/C18)
 * "notified once per mutation": exactly one call of each ``objects`` watcher for a mutation that
   changes the view; at most one for a mutation that leaves the view unchanged
   (``extend([])``, ``update({})``, ``clear()`` of empty objects, re-assigning the same object).
+* stale handles (``proxy=stale`` / ``stale-auto``): a handle ``H = p.objects`` is taken at the start (and
+  re-taken by the explicit operation ``H=objects``); every operation of a history then goes either through
+  a fresh ``p.objects`` or through ``H`` (written ``H.<op>``), so that ``H`` was obtained BEFORE other
+  mutations -- through fresh handles, wholesale replacement ``p.objects = ...`` or (``stale-auto``: the
+  Selector is declared ``check_on_set=False``, list-declared, and ``value=u<i>`` assigns a non-member, which
+  adds it to the objects) -- were made.  Claimed is only what a FRESH ``p.objects`` / ``names`` /
+  ``get_range()`` / probe assignments show afterwards: they reflect ALL mutations in the order made; what the
+  stale handle itself shows is not claimed.  An operation goes through ``H`` only when its meaning does not
+  depend on which of the two lists (the handle's own content = its snapshot plus what went through it, by
+  plain list semantics; the current objects) it is read against: adding operations always (``insert(i)`` with
+  ``i`` valid in both), operations that replace / remove an existing object only when that object sits at
+  the same index in both.  With ``check_on_set=False`` no probe assignments are made (they would add
+  objects) and no watcher count is claimed for the auto-adding assignment.
 * auto-generated names of list-declared objects are not compared (only the objects and their
   order in ``get_range()`` / ``items()``).
 """
@@ -92,17 +105,22 @@ REPL_DICT = (("k2", 2), ("k0", 0), ("k6", 6))
 # the abstract view (oracle).  Objects are universe indices.
 # ---------------------------------------------------------------------------------------
 class View:
-    __slots__ = ("style", "objs", "names", "nkey")
+    __slots__ = ("style", "objs", "names", "nkey", "own", "auto")
 
-    def __init__(self, style):
+    def __init__(self, style, stale=False, auto=False):
         self.style = style
         self.objs = [0, 1, 2]
         self.names = [(k, i) for i, k in enumerate(INIT_KEYS)] if style == "dict" else []
         self.nkey = 0
+        # stale-handle mode: the content of the handle H itself (plain list semantics: its snapshot plus
+        # what went through it).  NOT part of the view; only decides which operations are enumerated.
+        self.own = [0, 1, 2] if stale else None
+        self.auto = auto
 
     def copy(self):
         v = View.__new__(View)
         v.style, v.objs, v.names, v.nkey = self.style, list(self.objs), list(self.names), self.nkey
+        v.own, v.auto = (None if self.own is None else list(self.own)), self.auto
         return v
 
     def snapshot(self):
@@ -132,6 +150,15 @@ class View:
     # -- the mutators: return (has_result, result) -------------------------------------
     def apply(self, op):
         kind = op[0]
+        if kind == "S":                       # through the stale handle: same effect on the view ...
+            self._apply_own(op[1])            # ... and, by list semantics, on the handle's own content
+            return self.apply(op[1])
+        if kind == "take":
+            self.own = list(self.objs)
+            return (False, None)
+        if kind == "autoadd":
+            self.objs.append(op[1])
+            return (False, None)
         if kind == "setidx":
             _, i, o = op
             self.objs[i] = o
@@ -176,8 +203,107 @@ class View:
             return (False, None)
         raise ValueError(op)
 
+    def _apply_own(self, op):
+        kind, own = op[0], self.own
+        if kind == "setidx":
+            own[op[1]] = op[2]
+        elif kind == "append":
+            own.append(op[1])
+        elif kind == "insert":
+            own.insert(op[1], op[2])
+        elif kind == "extend":
+            own.extend(op[1])
+        elif kind in ("popidx", "pop"):
+            own.pop(op[1] if kind == "popidx" else -1)
+        elif kind == "popkey":
+            own.remove(dict(self.names)[op[1]])
+        elif kind == "remove":
+            own.remove(op[1])
+        elif kind == "clear":
+            del own[:]
+        elif kind in ("setkey", "update"):
+            cur = dict(self.names)                 # (apply() updates the names afterwards)
+            for k, o in ([(op[1], op[2])] if kind == "setkey" else op[2]):
+                if k in cur:
+                    own[own.index(cur[k])] = o
+                else:
+                    own.append(o)
+                cur[k] = o
+
+    def _same_place(self, o):
+        """object ``o`` sits at the same index in the handle's own content and in the current objects"""
+        return o in self.own and o in self.objs and self.own.index(o) == self.objs.index(o)
+
+    def via_stale_ok(self, op):
+        """may ``op`` go through the stale handle?  (its meaning must not depend on which list it is read against)"""
+        kind, own, objs = op[0], self.own, self.objs
+        if kind in ("append", "extend", "clear"):
+            return True
+        if kind == "insert":
+            return 0 <= op[1] <= min(len(own), len(objs))
+        if kind in ("setidx", "popidx", "pop"):
+            i = -1 if kind == "pop" else op[1]
+            if not (-len(own) <= i < len(own) and -len(objs) <= i < len(objs)):
+                return False
+            return i % len(own) == i % len(objs) and own[i] == objs[i]
+        if kind == "remove":
+            return self._same_place(op[1])
+        if kind == "popkey":
+            return self._same_place(dict(self.names)[op[1]])
+        if kind in ("setkey", "update"):
+            cur = dict(self.names)
+            pairs = [(op[1], op[2])] if kind == "setkey" else list(op[2])
+            shadow_own, shadow_objs = list(own), list(objs)
+            for k, o in pairs:
+                if k in cur:
+                    old = cur[k]
+                    if not (old in shadow_own and old in shadow_objs
+                            and shadow_own.index(old) == shadow_objs.index(old)):
+                        return False
+                    shadow_own[shadow_own.index(old)] = o
+                    shadow_objs[shadow_objs.index(old)] = o
+                else:
+                    shadow_own.append(o)
+                    shadow_objs.append(o)
+                cur[k] = o
+            return True
+        return False                              # wholesale replacement is an assignment, not a handle operation
+
     # -- which operations are enumerated in this state ---------------------------------
     def ops(self):
+        if self.own is not None:
+            return self._ops_stale()
+        return self._ops_plain()
+
+    def _ops_stale(self):
+        plain = self._ops_plain()
+        out = []
+        # through a fresh handle: one representative per mutator (they only serve to make H stale) ...
+        kept = set()
+        for op in plain:
+            k = op[0]
+            if k == "extend" and len(op[1]) != 2:
+                continue
+            if k in ("replace_list", "replace_dict"):
+                if not op[1]:
+                    continue
+            elif k == "update":
+                if op[1] != "dict" or len(op[2]) != 1:
+                    continue
+            elif k in kept:
+                continue
+            kept.add(k)
+            out.append(op)
+        if self.auto and self.style == "list":        # (the name an auto-added object gets in a named Selector is not settled)
+            out.append(("autoadd", [u for u in range(NUNIV) if u not in self.objs][0]))
+        out.append(("take",))
+        # ... through the stale handle: every mutator, every variant, where applicable
+        for op in plain:
+            if self.via_stale_ok(op):
+                out.append(("S", op))
+        return out
+
+    def _ops_plain(self):
         n = len(self.objs)
         cands = [u for u in range(NUNIV) if u not in self.objs][:2]
         c0, c1 = cands
@@ -240,6 +366,8 @@ class View:
 
     def after(self, op):
         """bookkeeping that is not part of the view: fresh-key counter."""
+        if op[0] == "S":
+            op = op[1]
         if op[0] in ("setkey",) and op[1].startswith("n"):
             self.nkey = max(self.nkey, int(op[1][1:]) + 1)
         if op[0] == "update":
@@ -253,7 +381,24 @@ METHOD = {"setidx": "ListProxy.__setitem__", "setkey": "ListProxy.__setitem__",
           "popidx": "ListProxy.pop", "pop": "ListProxy.pop", "popkey": "ListProxy.pop",
           "remove": "ListProxy.remove", "clear": "ListProxy.clear", "update": "ListProxy.update",
           "replace_list": "Selector.objects.setter", "replace_dict": "Selector.objects.setter",
-          "init": "Selector.__init__"}
+          "init": "Selector.__init__", "take": "Selector.objects.getter", "autoadd": "Selector._validate"}
+
+
+def base_op(op):
+    return op[1] if op[0] == "S" else op
+
+
+def opkind(op):
+    """operation kind as used in clause / witness classes: '<kind>' or '<kind>@stale'"""
+    return op[1][0] + "@stale" if op[0] == "S" else op[0]
+
+
+def is_stale_cfg(cfg):
+    return cfg[3] in ("stale", "stale-auto")
+
+
+def new_view(cfg):
+    return View(cfg[1], stale=is_stale_cfg(cfg), auto=cfg[3] == "stale-auto")
 
 
 OPNAME = {"popidx": "pop(int)", "pop": "pop()", "popkey": "pop(key)", "setidx": "[int]=", "setkey": "[key]=",
@@ -264,6 +409,12 @@ def op_text(op):
     """canonical short text of an operation (universe indices as u<i>)."""
     k = op[0]
     u = lambda i: "u%d" % i
+    if k == "S":
+        return "H." + op_text(op[1])
+    if k == "take":
+        return "H=objects"
+    if k == "autoadd":
+        return "value=%s" % u(op[1])
     if k == "setidx":
         return "[%d]=%s" % (op[1], u(op[2]))
     if k == "append":
@@ -297,6 +448,12 @@ def op_source(op, target):
     """python source of the operation on ``target`` ('P.objects' or 'H'); U[...] objects."""
     k = op[0]
     u = lambda i: "U[%d]" % i
+    if k == "S":
+        return op_source(op[1], "H")
+    if k == "take":
+        return "H = P.objects"
+    if k == "autoadd":
+        return "s.x = [%s] if IS_LIST else %s" % (u(op[1]), u(op[1]))
     if k == "setidx":
         return "%s[%d] = %s" % (target, op[1], u(op[2]))
     if k == "append":
@@ -354,8 +511,10 @@ class Real:
         else:
             init = {INIT_KEYS[0]: U[0], INIT_KEYS[1]: U[1], INIT_KEYS[2]: U[2]}
 
+        kw = {"check_on_set": False} if proxy == "stale-auto" else {}
+
         class S(param.Parameterized):
-            x = ptype(objects=init)
+            x = ptype(objects=init, **kw)
 
         self.cls = S
         self.inst = S()
@@ -369,12 +528,25 @@ class Real:
             S.param.watch(self.log_changed.append, "x", what="objects")
             S.param.watch(self.log_all.append, "x", what="objects", onlychanged=False)
         self.held = self.P.objects if proxy == "held" else None
+        self.stale = self.P.objects if proxy in ("stale", "stale-auto") else None     # the handle obtained EARLIER
         self.is_list = kind == "ListSelector"
 
     def target(self):
         return self.held if self.held is not None else self.P.objects
 
     def do(self, op):
+        U, k = self.U, op[0]
+        if k == "take":
+            self.stale = self.P.objects
+            return None
+        if k == "autoadd":
+            self.inst.x = [U[op[1]]] if self.is_list else U[op[1]]
+            return None
+        if k == "S":
+            return self._do(op[1], self.stale)
+        return self._do(op, None)
+
+    def _do(self, op, handle):
         U, k = self.U, op[0]
         if k == "replace_list":
             self.P.objects = [U[o] for o in op[1]]
@@ -386,7 +558,7 @@ class Real:
             if self.held is not None:
                 self.held = self.P.objects
             return None
-        t = self.target()
+        t = handle if handle is not None else self.target()
         if k == "setidx":
             t[op[1]] = U[op[2]]
         elif k == "append":
@@ -546,14 +718,14 @@ def run_history(cfg, ops, U=None):
     def ck(name, n=1):
         counts[name] = counts.get(name, 0) + n
 
-    view = View(decl)
+    view = new_view(cfg)
     findings = []
     try:
         real = Real(cfg, U)
     except Exception as e:                         # noqa
         return [(-1, "init", decl, "raises", "[%s] constructing the class raised %r" % (type(e).__name__, e))], counts
     seen = {0, 1, 2, NEVER}
-    probes_now = sorted(seen) if (mode == "interleaved" or not ops) else None
+    probes_now = sorted(seen) if (mode == "interleaved" or (not ops and mode != "noprobe")) else None
     bad = observe(real, view, probes_now)
     ck("C18/Selector.__init__/view")
     if bad:
@@ -566,31 +738,34 @@ def run_history(cfg, ops, U=None):
             seen.add(o)
         has_res, exp = view.apply(op)
         view.after(op)
-        meth = METHOD[op[0]]
+        meth = METHOD[base_op(op)[0]]
+        okind = opkind(op)
         try:
             res = real.do(op)
         except Exception as e:                     # noqa
             ck("C18/%s/raises" % meth)
-            findings.append((step, op[0], style, "raises", "[%s] %s raised %s: %s" % (type(e).__name__, op_text(op), type(e).__name__, e)))
+            findings.append((step, okind, style, "raises", "[%s] %s raised %s: %s" % (type(e).__name__, op_text(op), type(e).__name__, e)))
             return findings, counts
         ck("C18/%s/raises" % meth)
         if has_res:
             ck("C18/%s/result" % meth)
             e_obj = U[exp]
             if not (res is e_obj or (res is not None and res == e_obj)):
-                findings.append((step, op[0], style, "result", "[%s] %s returned %r, removed object is %r" % ("None" if res is None else "other", op_text(op), res, e_obj)))
+                findings.append((step, okind, style, "result", "[%s] %s returned %r, removed object is %r" % ("None" if res is None else "other", op_text(op), res, e_obj)))
         effective = view.snapshot() != before
         d1, d2 = len(real.log_changed) - n1, len(real.log_all) - n2
         ck("C18/%s/watchers" % meth)
-        if effective:
+        if op[0] == "autoadd":
+            pass                                   # (whether an auto-adding assignment notifies is not settled)
+        elif effective:
             if d1 != 1 or d2 != 1:
-                findings.append((step, op[0], style, "watchers",
+                findings.append((step, okind, style, "watchers",
                                  "[%s] %s notified the changes-only watcher %d time(s) and the every-set watcher %d time(s); expected once" % (_cnt(d1, d2), op_text(op), d1, d2)))
         elif d1 > 1 or d2 > 1:
-            findings.append((step, op[0], style, "watchers",
+            findings.append((step, okind, style, "watchers",
                              "[%s] %s (no change of the view) notified %d/%d times" % (_cnt(d1, d2), op_text(op), d1, d2)))
         last = step == len(ops) - 1
-        probes_now = sorted(seen) if (mode == "interleaved" or last) else None
+        probes_now = sorted(seen) if (mode == "interleaved" or (last and mode != "noprobe")) else None
         bad = observe(real, view, probes_now)
         for a in ("view", "items", "get_range", "getitem", "accepts"):
             ck("C18/%s/%s" % (meth, a))
@@ -600,7 +775,7 @@ def run_history(cfg, ops, U=None):
             # the changes-only watcher compares old and new view: not judged on a diverged view
             findings = [f for f in findings if not (f[0] == step and f[3] == "watchers")]
         for a, d in bad:
-            findings.append((step, op[0], style, a, "%s after %s: %s" % (d.split(" ", 1)[0], op_text(op), d.split(" ", 1)[1])))
+            findings.append((step, okind, style, a, "%s after %s: %s" % (d.split(" ", 1)[0], op_text(op), d.split(" ", 1)[1])))
         if any(f[3] in ("view", "proxy", "raises") for f in findings) or bad:
             return findings, counts
     return findings, counts
@@ -612,7 +787,10 @@ def _cnt(d1, d2):
 
 
 def _objs_of(op):
+    op = base_op(op)
     k = op[0]
+    if k == "autoadd":
+        return [op[1]]
     if k in ("setidx", "insert", "setkey"):
         return [op[2]]
     if k in ("append", "remove"):
@@ -627,7 +805,7 @@ def _objs_of(op):
 # ---------------------------------------------------------------------------------------
 # enumeration
 # ---------------------------------------------------------------------------------------
-def enum_histories(decl, depth, first=None):
+def enum_histories(cfg, depth, first=None):
     """all style-consistent histories of exactly ``depth`` operations (DFS over the model).
     ``first`` restricts the first operation to that index (work splitting)."""
     def rec(view, d, acc):
@@ -644,11 +822,30 @@ def enum_histories(decl, depth, first=None):
             acc.append(op)
             yield from rec(v2, d - 1, acc)
             acc.pop()
-    yield from rec(View(decl), depth, [])
+    yield from rec(new_view(cfg), depth, [])
 
 
-CFG_RANK = {"Selector": 0, "ListSelector": 1, "inst": 0, "class": 1, "fresh": 0, "held": 1,
-            "int": 0, "str": 1, "obj": 2, "final": 0, "interleaved": 1, "list": 0, "dict": 1}
+def sample_histories(cfg, depth, count, seed):
+    """``count`` distinct pseudo-random histories of exactly ``depth`` operations (deterministic in seed)."""
+    import random
+    rnd = random.Random("%s|%d|%d" % ("/".join(cfg), depth, seed))
+    seen, tries = set(), 0
+    while len(seen) < count and tries < 20 * count:
+        tries += 1
+        view, acc = new_view(cfg), []
+        for _ in range(depth):
+            op = rnd.choice(view.ops())
+            view.apply(op)
+            view.after(op)
+            acc.append(op)
+        h = tuple(acc)
+        if h not in seen:
+            seen.add(h)
+            yield h
+
+
+CFG_RANK = {"Selector": 0, "ListSelector": 1, "inst": 0, "class": 1, "fresh": 0, "held": 1, "stale": 2, "stale-auto": 3,
+            "int": 0, "str": 1, "obj": 2, "final": 0, "interleaved": 1, "noprobe": 2, "list": 0, "dict": 1}
 
 
 def cfg_rank(cfg):
@@ -663,7 +860,12 @@ def _worker(task):
     U = make_universe(family)
     ncases, counts, cands = 0, {}, {}
     samples = []
-    for hist in enum_histories(decl, depth, first):
+    if isinstance(first, tuple):                   # ("sample", count, seed): seeded histories instead of all
+        source = sample_histories(cfg, depth, first[1], first[2])
+        first = 10 ** 6
+    else:
+        source = enum_histories(cfg, depth, first)
+    for hist in source:
         ncases += 1
         findings, c = run_history(cfg, hist, U)
         for k, v in c.items():
@@ -686,12 +888,12 @@ def _worker(task):
 
 
 def clause_of(aspect, opk):
-    return "C18/%s/%s" % (METHOD[opk], aspect)
+    return "C18/%s/%s" % (METHOD[opk.split("@")[0]], aspect)
 
 
 def make_replay(cfg, hist, aspect, clause, witness):
     kind, decl, level, proxy, family, mode = cfg
-    view = View(decl)
+    view = new_view(cfg)
     lines = []
     seen = {0, 1, 2, NEVER}
     tgt = "H" if proxy == "held" else "P.objects"
@@ -709,7 +911,7 @@ def make_replay(cfg, hist, aspect, clause, witness):
             lines.append("r = None")
             exp_res = exp if has_res else None
             effective = view.snapshot() != before
-        lines.append(op_source(op, tgt))
+        lines.append(op_source(op, tgt) + ("        # through the handle obtained earlier" if op[0] == "S" else ""))
         if op[0].startswith("replace") and proxy == "held":
             lines.append("H = P.objects")
         if mode == "interleaved" and not last:
@@ -721,7 +923,8 @@ def make_replay(cfg, hist, aspect, clause, witness):
     src += "param.parameterized.get_logger().setLevel(logging.CRITICAL + 1)\n"
     src += FAMILY_SRC[family]
     head, src = src, ""
-    src += "class S(param.Parameterized):\n    x = param.%s(objects=%s)\n" % (kind, init)
+    src += "class S(param.Parameterized):\n    x = param.%s(objects=%s%s)\n" % (
+        kind, init, ", check_on_set=False" if proxy == "stale-auto" else "")
     src += "s = S()\nP = %s\n" % ("s.param.x" if level == "inst" else "S.param.x")
     src += "log_changed, log_all = [], []\n"
     who = "s" if level == "inst" else "S"
@@ -733,6 +936,8 @@ def make_replay(cfg, hist, aspect, clause, witness):
             "def probe(idx):\n    global s\n    if CLASS_LEVEL: s = S()\n    return [accepts(U[i]) for i in idx]\n")
     if proxy == "held":
         src += "H = P.objects\n"
+    if is_stale_cfg(cfg):
+        src += "H = P.objects        # a handle obtained EARLIER than the mutations below\n"
     src += "# ---- history (u<i> in the witness is U[i])\n"
     if not hist:
         src += "r = None\nn1 = n2 = 0\n"
@@ -830,7 +1035,21 @@ def plan(tier, seed):
     return [(c, d[0]) for c in core] + [(c, d[1]) for c in near] + [(c, d[2]) for c in wide]
 
 
+def stale_plan(tier, seed):
+    """list of (cfg, depth, sample): the stale-handle configurations.  sample None = all histories of that
+    depth, else the number of seeded histories."""
+    cfgs = [(kind, decl, "inst", "stale", "int", "interleaved") for kind in ("Selector", "ListSelector")
+            for decl in ("list", "dict")]
+    cfgs += [(kind, "list", "inst", "stale-auto", "int", "noprobe") for kind in ("Selector", "ListSelector")]
+    cfgs += [("Selector", decl, "class", "stale", "obj", "final") for decl in ("list", "dict")]
+    exh, smp = STALE_DEPTHS[tier]
+    out = [(c, exh if c[2] == "inst" else exh - 1, None) for c in cfgs]
+    out += [(c, depth, count) for c in cfgs if c[2] == "inst" for depth, count in smp]
+    return out
+
+
 DEPTHS = {"quick": (3, 2, 1), "thorough": (4, 3, 2)}
+STALE_DEPTHS = {"quick": (2, ((3, 600), (4, 200))), "thorough": (3, ((4, 9000),))}     # (depth <= 4: the universe has 12 objects)
 
 
 def run(tier, seed):
@@ -851,15 +1070,29 @@ def run(tier, seed):
                "str objects / named objects / probes only at the end); all histories of %d operation(s) on the other "
                "72 configurations of kind x declaration x {instance,class}-level x {fresh,held} proxy x "
                "{int,str,named-object} objects x {probes after every step, probes only at the end}; 3 initial objects, "
-               "alphabet of <= 21 operations per state" % (dcore, dnear, dwide)))
+               "alphabet of <= 21 operations per state; STALE HANDLES: 8 configurations ({Selector,ListSelector} x "
+               "{list,dict}-declared with a handle H=objects taken at the start, 2 list-declared ones with "
+               "check_on_set=False where value assignments auto-add, 2 class-level ones with named objects): every "
+               "operation either through a fresh handle (one representative per mutator, the wholesale replacements, "
+               "auto-adding assignment, re-taking H) or through H (every mutator variant whose meaning does not depend "
+               "on the handle's own content): all histories of %d operations (%d at class level)%s"
+               % (dcore, dnear, dwide, STALE_DEPTHS[tier][0], STALE_DEPTHS[tier][0] - 1,
+                  "".join(" + %d seeded of %d operations" % (c, dd) for dd, c in STALE_DEPTHS[tier][1]))))
     _quiet()
     tasks = []
     for cfg, depth in pl:
-        nfirst = len(View(cfg[1]).ops())
+        nfirst = len(new_view(cfg).ops())
         for f in range(nfirst):
             tasks.append((cfg, depth, f))
+    for cfg, depth, sample in stale_plan(tier, seed):
+        if sample is None:
+            for f in range(len(new_view(cfg).ops())):
+                tasks.append((cfg, depth, f))
+        else:
+            B.exhaustive = False
+            tasks.append((cfg, depth, ("sample", sample, seed)))
     # big tasks first
-    tasks.sort(key=lambda t: (-t[1], cfg_rank(t[0]), t[0], t[2]))
+    tasks.sort(key=lambda t: (isinstance(t[2], tuple), -t[1], cfg_rank(t[0]), t[0], t[2]))
     cands = {}
     ndistinct = 0
     with ProcessPoolExecutor(NWORKERS) as ex:
@@ -869,7 +1102,7 @@ def run(tier, seed):
             for k, v in counts.items():
                 B.checked(k, v)
             for s in samples:
-                if f == 7:
+                if f == 7 or (isinstance(f, tuple) and depth == 3):
                     B.sample(s)
             for key, val in cnd.items():
                 if key not in cands or val[0] < cands[key][0]:
@@ -884,7 +1117,7 @@ def run(tier, seed):
         kind, decl, level, proxy, family, mode = cfg
         clause = clause_of(aspect, opk)
         witness = "decl=%s op=%s aspect=%s what=%s kind=%s level=%s proxy=%s objs=%s probes=%s hist=%s" % (
-            style, OPNAME.get(opk, opk), aspect, what, kind, level, proxy, family, mode, ";".join(op_text(o) for o in hist) or "-")
+            style, OPNAME.get(opk.split("@")[0], opk.split("@")[0]) + ("@stale" if "@" in opk else ""), aspect, what, kind, level, proxy, family, mode, ";".join(op_text(o) for o in hist) or "-")
         B.violation(clause=clause, witness=witness, detail=" | ".join(details),
                     replay=make_replay(cfg, hist, aspect, clause, witness))
     B.note("style-inconsistent operations (append/insert/extend/[i]= on dict-declared objects, key operations on "
